@@ -5,13 +5,35 @@ From AV Require Export Model.RevHeader Model.Incremental.
 
 (* one accepted call: the revision as requested (keys interned), the same as strings, the code points of those
    strings that str.isprintable rejects, the docstring body the template produces (message and the three lines) *)
+(* directories: normalised absolute paths as lists of interned components *)
+Definition path := list N.
+Definition path_eqb (a b:path) : bool := list_eqb N.eqb a b.
+Fixpoint is_prefix (l p:path) : bool :=
+  match l, p with
+  | [], _ => true
+  | a :: l', b :: p' => N.eqb a b && is_prefix l' p'
+  | _ :: _, [] => false
+  end.
+(* generate_revision: os.path.normpath(os.path.abspath(version_path)) must EQUAL a configured version location *)
+Definition accept_path (locs:list path) (p:path) : bool := existsb (path_eqb p) locs.
+(* _load_revisions / Script._list_py_dir: the files of every configured location and, with
+   recursive_version_locations, of every directory below one *)
+Definition scanned (rec:bool) (locs:list path) (p:path) : bool :=
+  existsb (fun l => path_eqb l p || (rec && is_prefix l p)) locs.
+
+(* s_locs / s_rec: the configured version locations and recursive_version_locations; s_vp: the directory asked for
+   (version_path if given, else the directory alembic derives: the first head's, or the only location) *)
 Record step := mkStep { s_rev : frev; s_id : str; s_down : list str; s_labels : list str; s_deps : list str;
-                        s_nonprint : list N; s_doc : str }.
+                        s_nonprint : list N; s_doc : str; s_locs : list path; s_rec : bool; s_vp : path }.
+Definition accepts (s:step) : bool := accept_path (s_locs s) (s_vp s).
 Definition c17_in := list step.
 
 (* what was observed after the call: the four identifier lines of the written file; the loaded Script has the
    requested attributes; the module could be imported; the in-memory map and a freshly loaded one *)
-Record step_out := mkSO { so_header : str; so_loaded : bool; so_module_ok : bool; so_views : option (view * view) }.
+(* so_rejected: the call raised CommandError; so_file_left: a new file exists although it did; so_dir: where the file went *)
+Record step_out := mkSO { so_header : str; so_loaded : bool; so_module_ok : bool; so_views : option (view * view);
+                          so_rejected : bool; so_file_left : bool; so_dir : path }.
+Definition rejected_out : step_out := mkSO [] false false None true false [].
 Definition c17_out := list step_out.
 
 Definition step_fields (s:step) : fields := mkFields (s_id s) (s_down s) (s_labels s) (s_deps s).
@@ -25,12 +47,15 @@ Definition model_step (printable:N -> bool) (mem:mres rmap) (G:hist) (s:step) : 
   let mem' := match mem with MOk L => add_revision L (s_rev s) | MErr e => MErr e end in
   let ok := doc_ok (s_doc s) [] in
   (mkSO (write_header printable (mk_args (s_id s) (s_down s) (s_labels s) (s_deps s))) ok ok
-        (if ok then match res_view mem', res_view (load (G ++ [s_rev s])) with Some a, Some b => Some (a, b) | _, _ => None end else None),
+        (if ok then match res_view mem', res_view (load (G ++ [s_rev s])) with Some a, Some b => Some (a, b) | _, _ => None end else None)
+        false false (s_vp s),
    mem').
 Fixpoint model_steps (mem:mres rmap) (G:hist) (l:list step) : c17_out :=
   match l with
   | [] => []
-  | s :: r => let (o, mem') := model_step (printable_of (s_nonprint s)) mem G s in
+  | s :: r => if negb (accepts s) then rejected_out :: model_steps mem G r      (* CommandError: nothing written, nothing changed *)
+              else
+              let (o, mem') := model_step (printable_of (s_nonprint s)) mem G s in
               o :: (if so_module_ok o then model_steps mem' (G ++ [s_rev s]) r else [])
   end.
 Definition model_C17 (i:c17_in) : c17_out := model_steps (load []) [] i.
@@ -44,16 +69,23 @@ Definition oviews_eqb (a b:option (view*view)) : bool :=
   end.
 Definition step_out_eqb (a b:step_out) : bool :=
   str_eqb (so_header a) (so_header b) && Bool.eqb (so_loaded a) (so_loaded b) && Bool.eqb (so_module_ok a) (so_module_ok b)
-  && oviews_eqb (so_views a) (so_views b).
+  && oviews_eqb (so_views a) (so_views b) && Bool.eqb (so_rejected a) (so_rejected b) && Bool.eqb (so_file_left a) (so_file_left b)
+  && path_eqb (so_dir a) (so_dir b).
 Definition corr_C17 (i:c17_in) (o:c17_out) : bool := list_eqb step_out_eqb (model_C17 i) o.
 
 (* ---------------------------------------------------------------- the property *)
+(* a rejected call leaves nothing behind; an accepted one wrote into a directory that a reload scans, the file
+   reads back as requested, and the in-memory map equals the reloaded one *)
 Definition step_holds (s:step) (o:step_out) : Prop :=
+  if so_rejected o then so_file_left o = false else
+  scanned (s_rec s) (s_locs s) (so_dir o) = true /\
   read_header (so_header o) = Some (step_fields s) /\ so_loaded o = true /\ so_module_ok o = true /\
   exists a b, so_views o = Some (a, b) /\ view_eqb a b = true.
 Definition C17_holds (i:c17_in) (o:c17_out) : Prop := Forall2 step_holds i o.
 
 Definition check_step (s:step) (o:step_out) : bool :=
+  if so_rejected o then negb (so_file_left o) else
+  scanned (s_rec s) (s_locs s) (so_dir o) &&
   match read_header (so_header o) with Some f => fields_eqb f (step_fields s) | None => false end
   && so_loaded o && so_module_ok o && match so_views o with Some (a, b) => view_eqb a b | None => false end.
 Fixpoint check_C17 (i:c17_in) (o:c17_out) : bool :=
@@ -76,4 +108,4 @@ Fixpoint wf_hist_from (G:hist) (l:list frev) : bool :=
 Definition strs_valid (l:list str) : bool := forallb valid_strb l.
 Definition step_class (s:step) : bool :=
   valid_strb (s_id s) && strs_valid (s_down s) && strs_valid (s_labels s) && strs_valid (s_deps s) && doc_safe (s_doc s).
-Definition inclass_C17 (i:c17_in) : bool := wf_hist_from [] (map s_rev i) && forallb step_class i.
+Definition inclass_C17 (i:c17_in) : bool := wf_hist_from [] (map s_rev (filter accepts i)) && forallb step_class i.
